@@ -60,6 +60,18 @@ CHECKS = {
          'replaced by the type rank during symbolic runs (sound if equal items hash equal, property C14). '
          'Witness use by rules is asserted in C04. Counterexamples replayed concretely in a fresh process.',
     technique='proxy-based symbolic execution (pysymex) of Branch.append/copy with z3 path feasibility'),
+ 'C14': dict(
+    engine=E1, category='model_checking', design='6 C14',
+    text='The real comparison kernel (orderitems, rich comparisons, Argument wrapper) runs on arbitrary '
+         'symbolic integer sort tuples; the real constructors build every pair of item shapes (nine types, '
+         'sentences to depth 2) from symbolic coordinates, and z3-guided paths cover every order/equality '
+         'type of the coordinates: == <=> same ident, equal => same sort_tuple and same real hash (on the '
+         'witness), type rank first, trichotomy, antisymmetry, transitivity. Rebuild from spec/ident, copy, '
+         'deepcopy, pickle under construction histories with ITEM_CACHE_SIZE 1,2,3,1000. Immutability per type.',
+    note='Bounds: tuples of length <=3; 20 shapes; histories <=2 (quick) / 3 (thorough) constructions. Stub: '
+         'lexical __hash__ replaced by the type rank while coordinates are symbolic; the real hash is compared '
+         'on the concrete witness of each path. Pickle and immutability are concrete.',
+    technique='proxy-based symbolic execution (pysymex) of the real constructors and comparison kernel'),
  'C18': dict(
     engine=E1, category='model_checking', design='6 C18',
     text='The real qset, linqset and Predicates run under the proxy symbolic executor on every operation '
